@@ -161,6 +161,34 @@ class Scenario:
                  gradof(p) is None or gradof(w) is None or not np.shares_memory(ar.unwrap(gradof(p)), ar.unwrap(gradof(w))))
         return out
 
+    def s_assigned_gradient_own_buffer(self, env):
+        """a gradient handed over through the public .grad setter (copying it from another tensor, or one zero tensor used
+        to initialise several parameters) becomes the tensor's own: later backward calls accumulate into the assignee only -
+        neither the tensor it came from nor a second assignee is outside the graph being differentiated any less than before"""
+        out = E.Outcome()
+        Tn = T()
+        a = Tn(env.arr("a", (2,)), requires_grad=True)
+        b = Tn(env.arr("b", (2,)), requires_grad=True)
+        g1, g2 = env.arr("g1", (2,)), env.arr("g2", (2,))
+        (a * 2.0).backward(Tn(g1))
+        kept = snapshot(gradof(a))
+        b.grad = a.grad                      # same dtype: nothing forces a conversion
+        (b * 3.0).backward(Tn(g2))           # a is not reachable from this root
+        out.pair("the tensor a gradient was copied from keeps its own gradient", snapshot(gradof(a)), kept)
+        out.pair("the assignee accumulates onto the assigned values", gradof(b), g1 * 2.0 + g2 * 3.0)
+        x = Tn(env.arr("x", (2,)), requires_grad=True)
+        y = Tn(env.arr("y", (2,)), requires_grad=True)
+        z = Tn(env.const(np.zeros(2), np.float32))
+        zsnap = snapshot(z.data)
+        x.grad = z
+        y.grad = z
+        g3 = env.arr("g3", (2,))
+        (x * 2.0 + y * 5.0).backward(Tn(g3))
+        out.pair("grad(x) after one shared initial gradient", gradof(x), g3 * 2.0)
+        out.pair("grad(y) after one shared initial gradient", gradof(y), g3 * 5.0)
+        out.pair("the tensor that was assigned is not written to", snapshot(z.data), zsnap)
+        return out
+
     def s_loss_target_untouched(self, env):
         out = E.Outcome()
         Tn = T()
@@ -197,7 +225,7 @@ class Scenario:
 
 SCENARIOS = ["leaf_root_then_accumulate", "seed_reused_twice", "views_of_one_array", "tensor_used_by_several_ops",
              "clone_detach_independent", "clone_detach_independent_under_no_grad", "loss_target_untouched", "untracked_bridge",
-             "wrapped_tensor_own_gradient"]
+             "wrapped_tensor_own_gradient", "assigned_gradient_own_buffer"]
 
 
 def enumerate_specs(tier):
